@@ -632,7 +632,9 @@ def check_C08(tier):
         inv = E.unsafe_inventory(v)
         names = sorted(set(E.nz(x[2]) for x in inv if x[0] == "call"))
         rep.analysed.setdefault("unsafe_inventory", {})[c] = {"sites": len(inv), "unsafe_callees": names}
-        rep.floor("%s: unsafe operation sites in the library" % c, len(inv), 15 if "alloc" in c else 25)
+        # floors = the numbers counted on the pinned tree, minus a margin of 4 for benign refactors (a vanished inventory fails closed)
+        UNSAFE_FLOOR = {"default": 29, "compact": 25, "alloc": 14, "compact_alloc": 10, "nostd": 29, "nostd_compact": 43, "nostd_alloc": 14, "nostd_compact_alloc": 28}
+        rep.floor("%s: unsafe operation sites in the library" % c, len(inv), UNSAFE_FLOOR.get(c, 10))
         hd = [s for s in v.structs if s["has_drop"]]
         rep.add(c + " drop", [K.Ob("no user Drop impl touches raw memory", not hd, "types with Drop: %s" % [s["path"] for s in hd],
                                    "R08.3:panics unwind through no user Drop (StackVec has none)")])
